@@ -406,6 +406,12 @@ class Frame:
         it = self.eval(s.iter)
         annot = self.I.loop_annots.get((self.f.key, ordinal))
         seq = self.I.stdlib.concrete_iter(self.I, it)
+        if seq is None and annot is None and type(untag(it)).__name__ == 'SymSeq':
+            # loop over a symbolic-length list: the body is executed for a generic element (no stores into outer
+            # objects allowed -- no witness; a raise in the body = some element raises = the loop raises)
+            from . import loops as _L
+            sq = untag(it)
+            return _L.IndependentWrites(witness=None).apply_for(self, s, _L.SeqRange(sq))
         if seq is None:
             if annot is None:
                 raise Unsupported(f'loop #{ordinal} in {self.f.qualname} over symbolic-length iterable needs an annotation', s)
